@@ -162,6 +162,17 @@ chk("C18", "model_checking",
     "TLA+ spec ReduceCell.tla (nondeterministic tie order, exact integer lengths) model-checked by TLC + replay; three-way verdict with a named deviation model",
     "DESIGN.md section 7 C18")
 
+chk("C09", "model_checking",
+    "Omega.tla constructs, from Pythagorean theta, eta, omega, chi and wedge, the exact goniometer matrix of each of the four solvers "
+    "(as the module composes it), decides tangency exactly (x-component of n x g_lab) and the never-diffracting family by an exact "
+    "inequality; TLC checks |g_lab|^2 = sin^2(theta) and orthonormality where they fit 32 bits. g_w = Omega' g_lab must then diffract "
+    "at the constructed (omega, eta): every solver in both modules must return exactly two solutions away from tangency, the "
+    "constructed one among them, every returned pair must satisfy the three-component diffraction condition under the module's own "
+    "matrix, omega in (-pi, pi]; unreachable g-vectors must give no solution. tth/tth2 are compared with the exact Q* of Cell.tla.",
+    "Trusted: TLC; float products of the exact rationals; tolerance 1e-9 (1e-6 at exactly tangent constructions).",
+    "TLA+ spec Omega.tla (constructive exact diffraction geometry) model-checked by TLC + replay into the four solvers of both modules",
+    "DESIGN.md section 7 C09")
+
 ALL = ["C%02d" % i for i in range(1, 21)]
 
 
